@@ -294,10 +294,11 @@ class World(WsWorld):
             "deflate": ch.flag("deflate", 0.3),
             "others": ch.choose(3, "other-connections", (4, 2, 1)),
             "externalPort": ch.pick((None, 9000, 8443), "externalPort", (4, 1, 1)),
+            "oht": ch.pick((0, 5), "openHandshakeTimeout"),
         }
         fac = aw.WebSocketServerFactory("ws://localhost:9000", externalPort=cfg["externalPort"],
                                         **self.fw.factory_kw(self.reactor))
-        opts = dict(versions=list(cfg["versions"]), openHandshakeTimeout=0, webStatus=cfg["webStatus"],
+        opts = dict(versions=list(cfg["versions"]), openHandshakeTimeout=cfg["oht"], webStatus=cfg["webStatus"],
                     maxConnections=cfg["maxConn"], allowNullOrigin=cfg["allowNull"])
         if cfg["allowed"] is not None:
             opts["allowedOrigins"] = cfg["allowed"]
@@ -800,6 +801,10 @@ class World(WsWorld):
         opened = any(ev[0] == "onOpen" for ev in e.events)
         state_open = e.p._st == 3 or 3 in e.states
         out = bytes(e.http_out)
+        if self.mode == "server" and e.closed_cb is not None and "opening handshake timeout" in (e.closed_cb[2] or ""):
+            # the peer was slower than the configured opening-handshake timeout: dropping it is what the timer is for
+            run.probe("open-timeout-fired")
+            return
         if self.mode == "server":
             if self.verdict == "valid":
                 if not opened:
